@@ -70,6 +70,70 @@ def check_one(slot_dir, crate, feats):
     return crate, feats, p.returncode, p.stdout, time.time() - t0
 
 
+# flavour siblings whose blocking form is deliberately gated differently: (scope, base name) -> reason
+GATE_EXCEPTIONS = {
+    ("wow_world_messages", "util", "read_u16_le"): "blocking primitive lives in util::functions::base, compiled only with an expansion; the async twins are header primitives compiled with their runtime",
+    ("wow_world_messages", "util", "read_u16_be"): "same as read_u16_le",
+    ("wow_world_messages", "util", "read_u32_le"): "same as read_u16_le",
+}
+
+
+def check_sibling_gates(ctx, gates):
+    """the sync / tokio / async-std copies of one function must exist (and be exported) under the same conditions once their own
+    flavour feature is the only enabled flavour: otherwise a configuration silently lacks a codec that its sibling configuration has"""
+    from .. import cfggate as G
+    n_groups = n_fns = 0
+    for crate in ("wow_login_messages", "wow_world_messages", "wow_world_base"):
+        src = os.path.join(REPO, crate, "src")
+        recs = {f: r for f, r in gates.items() if f.startswith(src + os.sep)}
+        try:
+            inh, unresolved = G.module_tree(src, recs)
+        except G.GateError as e:
+            ctx.violate("cfg.sibling-gates", f"{crate}|shape", f"{crate}: module tree not computable — review ({e})")
+            continue
+        for f, name in unresolved:
+            ctx.violate("cfg.sibling-gates", f"{crate}|unresolved|{os.path.relpath(f, REPO)}|{name}", f"{os.path.relpath(f, REPO)}: `mod {name};` has no file (module tree incomplete)")
+        groups, nf = G.sibling_groups(src, recs, inh)
+        n_fns += nf
+        for (scope, base), g in sorted(groups.items()):
+            if len(g) < 2:
+                continue
+            n_groups += 1
+            try:
+                allat = set()
+                for lst in g.values():
+                    for _f, _d, eff in lst:
+                        for t in eff:
+                            G.atoms(G.parse_pred(t), allat)
+                rest = sorted(a for a in allat if a not in G.FLAVOUR.values())
+                if len(rest) > 12:
+                    raise G.GateError(f"{len(rest)} cfg atoms")
+                by_k = {}
+                for fl, lst in g.items():
+                    for k, (f, d, eff) in enumerate(lst):
+                        by_k.setdefault(k, {})[fl] = (G.restricted_table(eff, fl, rest), f, d, eff)
+            except G.GateError as e:
+                ctx.violate("cfg.sibling-gates", f"{crate}|{scope}|{base}|shape", f"{crate} {scope} {base}: cfg predicate not interpretable — review ({e})")
+                continue
+            for k, t in by_k.items():
+                ref_fl = "tokio" if "tokio" in t else "sync"
+                for fl, (vec, f, d, eff) in t.items():
+                    if fl == ref_fl or vec == t[ref_fl][0]:
+                        continue
+                    if "sync" in (fl, ref_fl) and (crate, scope, base) in GATE_EXCEPTIONS:
+                        continue
+                    w = G.witness(rest, vec, t[ref_fl][0])
+                    rel = os.path.relpath(f, REPO)
+                    other = t[ref_fl][2]["name"]
+                    on, a, b = w
+                    ctx.violate("cfg.sibling-gates", f"{crate}|{scope}|{d['name']}",
+                                f"{rel}: `{d['name']}` {'exists' if a else 'does not exist (or is not exported)'} when {fl if fl != 'astd' else 'async-std'} is the only enabled flavour"
+                                f"{' with ' + ', '.join(on) if on else ''}, but its sibling `{other}` {'exists' if b else 'does not'} when {ref_fl} is: "
+                                f"effective cfg {eff} vs {t[ref_fl][3]}", rel, d["line"])
+    ctx.rule("cfg.sibling-gates", n_groups, floor=480, note=f"flavour sibling groups ({n_fns} function items with their effective cfg through the module tree and glob re-exports): "
+             f"each copy exists under the same conditions as its siblings; {len(GATE_EXCEPTIONS)} tabled exceptions")
+
+
 def run(ctx):
     tier = ctx.tier
     # ---- D2: cfg positions ----------------------------------------------------------------------
@@ -83,6 +147,7 @@ def run(ctx):
     n_files = 0
     n_cfg = 0
     items = {}
+    gates = {}
     fixture_hits = 0
     n_neg = 0
     batch = 400
@@ -114,6 +179,8 @@ def run(ctx):
                     rel = os.path.relpath(d["file"], REPO)
                     ctx.violate("cfg.item-level", f"{rel}|{d['pos']}|{d['text'][:80]}",
                                 f"{rel}:{d['line']}: `{d['text'][:100]}` on a {d['pos']}: the body of a codec differs between feature configurations", rel, d["line"])
+            elif d["k"] == "gate" and d["file"] != fixture:
+                gates.setdefault(d["file"], []).append(d)
             elif d["k"] == "item" and d["file"] != fixture and not d["in_fn"]:
                 key = (d["file"], d["module"], d["kind"], d["name"])
                 items.setdefault(key, []).append((d["line"], tuple(d["cfgs"])))
@@ -127,6 +194,7 @@ def run(ctx):
             ctx.violate("cfg.item-level", f"{rel}|dup|{module}::{name}", f"{rel}: {kind} `{name}` is defined {len(defs)} times in one module under cfgs {[d[1] for d in defs]}: configurations may see different codecs", rel, defs[0][0])
     ctx.rule("cfg.no-negation", n_cfg, floor=9000, note=f"cfg predicates without a negated feature ({n_neg} negated found): the all-features configuration contains every item of every configuration")
     ctx.rule("cfg.item-level", n_files - 1, floor=FILES_FLOOR, note=f"library files scanned; {n_cfg} cfg attributes, all at item level; fixture positions recognised: {fixture_hits}")
+    check_sibling_gates(ctx, gates)
     # ---- D1: feature matrix ----------------------------------------------------------------------
     jobs = []
     for crate, feats in CRATES.items():
